@@ -74,6 +74,7 @@ bool AnalyserExternalVariable::addDependency(const VariablePtr &variable)
 
     if ((pimplVariable != nullptr)
         && (variable != nullptr)
+        && (owningModel(variable) != nullptr)
         && (owningModel(variable) == owningModel(pimplVariable))
         && (mPimpl->findDependency(variable) == mPimpl->mDependencies.end())
         && !areEquivalentVariables(variable, pimplVariable)) {
